@@ -186,8 +186,8 @@ func argValues(in *model.Interp, args []*gen.Node, strict bool) ([]any, error) {
 		v, err := in.Eval(a)
 		if err != nil {
 			if _, isScript := err.(*model.Err); isScript && !strict {
-				out = append(out, nil)
-				continue
+				// strfmt ignores a failing argument; which value it formats instead is not documented
+				return nil, model.ErrUnsupported
 			}
 			return nil, err
 		}
